@@ -109,6 +109,12 @@ CHECKS = {
         "text": "Levels.tla types each node with the set of groupings within which it is certainly constant (data by suffix, aggregates and ids by their group, rules by the meet of their arguments, using the nesting that Households.tla proves) and TLC lists the group-suffixed nodes whose constancy it cannot prove. Witness populations (several structures in one household, unmarried couples, spouses apart, self-sufficient children; members differ in every individual-level input) are simulated with all non-time-derived nodes and TLC checks every group-suffixed column against the id column of its group; violations are reduced to root-cause nodes.",
         "note": "Static typing yields candidates only (recorded in the evidence); a VIOLATION needs a dynamic witness. mietstufe and wohnort_ost are treated as household-level facts by the generator. Populations are seeded samples at 4 (thorough 10) dates.",
     },
+    "C16": {
+        "level": "exploration",
+        "technique": "TLA+ predicates Finite / NonNegative / CapOK over exact decimals (Bounds.tla); every column and a table of cap relations of corner-population runs judged by TLC (Trace_Bounds)",
+        "text": "Corner populations in six modes (all incomes zero; very large income and wealth; negative rental income; pensioners aged 67-100; couples with 6-10 children; mixed) over the generator's household types are simulated with every node requested and rounding on at several change dates >= 2015; TLC checks every numeric column for finiteness, every default target for non-negativity and 6-8 cap relations between columns and parameters of the date (benefit after priority <= before, paid <= entitlement, contribution <= rate x ceiling, Elterngeld <= maximum + bonuses, Kindergeld <= highest rate x claims).",
+        "note": "Per-row numeric predicates on sampled corner inputs: exploration level. The cap table is hand-written and partial; 24 populations quick / 360 thorough.",
+    },
 }
 
 NOT_APPLICABLE = {}
